@@ -1263,6 +1263,15 @@ func Run(r *common.Run) error {
 		{forms: []gForm{{fields: []gField{{"b", "list-multi", []string{"2", "1"}}, ft("t"), {"a", "", nil}}}}},                           // fields and values out of order
 		{ids: []gIdent{{"b", "", "", ""}, {"a", "z", "", "n"}, {"a", "b", "x", ""}, {"a", "b", "", "m"}}, feats: []string{"b", "a", ""}}, // cascade of keys
 	}
+	// the witnesses of the collision theorems (C20_sections_collide, C20_features_collide_with_lt,
+	// C20_identities_collide_with_slash, C20_fields_collide): pairs the real code hashes alike
+	corpus = append(corpus,
+		gInfo{ids: []gIdent{{"a", "b", "", "c"}}}, gInfo{feats: []string{"a/b//c"}},
+		gInfo{feats: []string{"a<b"}}, gInfo{feats: []string{"a", "b"}},
+		gInfo{ids: []gIdent{{"a/b", "c", "d", "e"}}}, gInfo{ids: []gIdent{{"a", "b/c", "d", "e"}}},
+		gInfo{forms: []gForm{{fields: []gField{ft("t"), {"a", "list-multi", []string{"b", "c"}}}}}},
+		gInfo{forms: []gForm{{fields: []gField{ft("t"), {"a", "list-multi", []string{"b"}}, {"c", "list-multi", nil}}}}},
+	)
 	for _, g := range corpus {
 		c.info(g, "corpus", 4)
 		c.entryPoints(g, []byte("ab"))
